@@ -754,7 +754,10 @@ class Rtc(ContentElement):
     raise RuntimeError("Rtc children must be removed using `remove_children`")
 
   def push_children(self, children: typing.Iterable[ContentElement]):
-    cs = list(children)
+    children = list(children)
+
+    # the pattern applies to the existing children followed by the new ones
+    cs = list(self) + children
 
     if len(cs) > 2 and isinstance(cs[0], Rp) and isinstance(cs[-1], Rp):
       cs = cs[1:-1]
@@ -762,8 +765,17 @@ class Rtc(ContentElement):
     if not all(isinstance(x, Rt) for x in cs):
       raise ValueError("Children of rtc do not conform to requirements")
 
-    for child in children:
-      super().push_child(child)
+    pushed = []
+
+    try:
+      for child in children:
+        super().push_child(child)
+        pushed.append(child)
+    except Exception:
+      # all or nothing: do not leave a partial pattern behind
+      for child in pushed:
+        super().remove_child(child)
+      raise
 
   def remove_children(self):
 
